@@ -151,7 +151,20 @@ class FileWrappers:
             self.kind[top] = kind
 
     def append_wrappers(self):
-        return sorted(k for k, v in self.kind.items() if v == 'append')
+        """root fns of the io layer that reach a raw positional write and whose OS offsets all come from the size reservation
+        (includes wrappers that only reach the raw write through another append wrapper, e.g. write_append_writable_data)"""
+        prog = self.prog
+        base = set(k for k, v in self.kind.items() if v == 'append')
+        pos = set(k for k, v in self.kind.items() if v != 'append')
+        L, E = prog.may_reach()
+        out = set(base)
+        for f in prog.fns.values():
+            if f.root != f.id or not f.file.startswith('src/io/'):
+                continue
+            reach = L.get(f.id, ())
+            if any(x in base or prog.fns[x].root in base for x in reach) and not any(prog.fns[x].root in pos for x in reach) and f.id not in pos:
+                out.add(f.id)
+        return sorted(out)
 
     def positional_wrappers(self):
         return sorted(k for k, v in self.kind.items() if v != 'append')
